@@ -4,6 +4,7 @@
 mod c30;
 mod c31;
 mod c32;
+mod c32b;
 mod c33;
 mod c34;
 mod c36;
